@@ -685,3 +685,8 @@ def run(cx):
     cx.guard(r4_escape_sets)
     cx.guard(r5_line_search)
     cx.guard(r6_time_search)
+    # 'raises the content error and yields no object': the content error a parser raises is a subclass of the skip signal; in parser.invoke it must reach
+    # its own (recording) arm, not the silent skip arm (C03.R9 re-checked)
+    from . import c03
+    cx.borrow(c03.r9_content_before_skip, "C03.R9", "C14.R7", "a content error raised by a parser is reported as such, not swallowed as a skip (C03.R9)",
+              [repo.module("insights.core.dr"), repo.module("insights.core.plugins")])
